@@ -10,7 +10,7 @@
 
 typedef struct { int ntrace; vx_pt trace[VX_MAXCH]; uint64_t state[VX_MAXCH]; int status, cret, sret; ep_t c, s; int sec_equal, diverged; char fail[160]; int cke_len; } exec_out;
 static exec_out *XO; static int ENVX = 1;
-typedef struct { int proto, mutual, depth; app_dir c2s, s2c; int do_app, interleave; unsigned seed; int via_files; int trust_extra; } cfg_t;
+typedef struct { int proto, mutual, depth; app_dir c2s, s2c; int do_app, interleave; unsigned seed; int via_files; int trust_extra; int chain_total; /* > 0: the server's (and in mutual mode the client's) chain is sized to exactly this many octets */ } cfg_t;
 static side_creds SRV[3][3], CLI[3][3];   /* [proto][depth-1] */
 
 static uint64_t vn_state_hash(void) { uint64_t a[9] = { (uint64_t)vn_me, vn_bytes_recv[0], vn_bytes_recv[1], vn_bytes_sent[0], vn_bytes_sent[1], vn_to[0].w - vn_to[0].r, vn_to[1].w - vn_to[1].r, vn_stagelen[0], vn_stagelen[1] }; return vh_hash(a, sizeof a, 0x51a7e); }
@@ -18,6 +18,7 @@ static uint64_t vn_state_hash(void) { uint64_t a[9] = { (uint64_t)vn_me, vn_byte
 static int child_run(const cfg_t *cf) {
 	ep_t *c = &XO->c, *s = &XO->s; memset(c, 0, sizeof *c); memset(s, 0, sizeof *s);
 	c->proto = s->proto = cf->proto; c->is_client = 1; c->mutual = cf->mutual != 0 /* 2: the client HOLDS a certificate and key, but the server has no CA list and asks for none */; s->mutual = cf->mutual == 1; c->own = &CLI[cf->proto][cf->depth - 1]; s->own = &SRV[cf->proto][cf->depth - 1]; c->trust = &SRV[cf->proto][cf->depth - 1]; s->trust = cf->mutual == 1 ? &CLI[cf->proto][cf->depth - 1] : NULL;
+	if (cf->chain_total) { static side_creds S2, C2; cred_defects kn; memset(&kn, 0, sizeof kn); kn.chain_total = cf->chain_total; venv_reset(0x5151 + (unsigned)cf->chain_total); if (build_side(&S2, cf->proto, 0, cf->depth, &kn) != 1 || build_side(&C2, cf->proto, 1, cf->depth, &kn) != 1) return -90; if ((int)S2.certslen != cf->chain_total) return -91; s->own = &S2; c->trust = &S2; if (cf->mutual == 1) { c->own = &C2; s->trust = &C2; } }
 	c->out = cf->c2s; s->in = cf->c2s; s->out = cf->s2c; c->in = cf->s2c; c->do_app = s->do_app = cf->do_app; s->interleave = cf->interleave; if (cf->trust_extra) { /* trust lists with unrelated CA certificates around the genuine root: 1 = [U1, R], 2 = [R, U1], 3 = [U1, R, U2] */ static side_creds TS, TC; const side_creds *src[2] = { c->trust, s->trust }; side_creds *dst[2] = { &TS, &TC };
 		for (int w = 0; w < 2; w++) { if (!src[w]) continue; *dst[w] = *src[w]; uint8_t u1[1024], u2[1024]; size_t l1 = 0, l2 = 0; cert_spec u; spec_ca(&u, "U1", -1); make_cert(&u, &CK[9], &CK[9], "U1", u1, &l1); spec_ca(&u, "U2", -1); make_cert(&u, &CK[10], &CK[10], "U2", u2, &l2); uint8_t *p = dst[w]->cacerts; size_t rl = src[w]->cacertslen;
 			if (cf->trust_extra != 2) { memcpy(p, u1, l1); p += l1; } memcpy(p, src[w]->cacerts, rl); p += rl; if (cf->trust_extra == 2) { memcpy(p, u1, l1); p += l1; } if (cf->trust_extra == 3) { memcpy(p, u2, l2); p += l2; } dst[w]->cacertslen = (size_t)(p - dst[w]->cacerts); }
@@ -33,9 +34,9 @@ static int child_run(const cfg_t *cf) {
 static int run_exec(const cfg_t *cf, const uint8_t *prefix, int np) {
 	memset(XO, 0, sizeof(int) * 4); XO->ntrace = 0; XO->fail[0] = 0; fflush(stdout);
 	pid_t pid = fork(); if (pid < 0) vh_harness_error("fork");
-	if (pid == 0) { if (!freopen("/dev/null", "w", stderr) || !freopen("/dev/null", "w", stdout)) {} alarm(60); vx_nprefix = np; memcpy(vx_prefix, prefix, np); vx_ntrace = 0; child_run(cf); _exit(0); }
+	if (pid == 0) { if (!freopen("/dev/null", "w", stderr) || !freopen("/dev/null", "w", stdout)) {} alarm(60); vx_nprefix = np; memcpy(vx_prefix, prefix, np); vx_ntrace = 0; int cr_ = child_run(cf); _exit(cr_ <= -90 ? 99 : 0); }
 	int st; while (waitpid(pid, &st, 0) < 0 && errno == EINTR) {}
-	if (!WIFEXITED(st) || WEXITSTATUS(st)) { snprintf(XO->fail, sizeof XO->fail, "%s", WIFSIGNALED(st) ? (WTERMSIG(st) == SIGALRM ? "hang" : "crash") : "abnormal-exit"); return -1; }
+	if (!WIFEXITED(st) || WEXITSTATUS(st)) { if (WIFEXITED(st) && WEXITSTATUS(st) == 99) vh_harness_error("credentials of the requested size could not be built (chain_total=%d)", cf->chain_total); snprintf(XO->fail, sizeof XO->fail, "%s", WIFSIGNALED(st) ? (WTERMSIG(st) == SIGALRM ? "hang" : "crash") : "abnormal-exit"); return -1; }
 	return 0;
 }
 static const char *cfgname(const cfg_t *cf) { static char b[96]; snprintf(b, sizeof b, "%s-%s-depth%d", PNAME[cf->proto], cf->mutual == 2 ? "serverauth-client-holds-an-unrequested-certificate" : cf->mutual ? "mutual" : "serverauth", cf->depth); return b; }
@@ -87,6 +88,10 @@ static void body(void) {
 	   filled context and context interface from files */
 	for (int p = 0; p < 3; p++) { char bn[64]; snprintf(bn, sizeof bn, "unrequested-client-certificate-%s", PNAME[p]); if (!vh_block_begin(bn)) continue;
 		for (int vf = 0; vf < 2; vf++) for (int d = 1; d <= 2; d++) { cfg_t cf = { p, 2, d, { { 24 }, 1, 64 }, { { 24 }, 1, 64 }, 1, 0, 0, vf }; if (!vh_next()) continue; ENVX = 0; run_exec(&cf, NULL, 0); NEXEC++; judge(&cf, NULL, 0, "unrequested-client-certificate"); vh_sample("{\"block\":\"unrequested-client-certificate\",\"proto\":\"%s\",\"via_files\":%d,\"chain_depth\":%d}", PNAME[p], vf, d); } }
+	/* H: chains that just fit the peer's 2048-octet certificate store: total sizes 2036..2048 for chains of 2 and 3 certificates (TLCP server: sign + enc + CAs), server
+	   authentication and mutual: every one of them is accepted by the presenting side's own tls_init, so the handshake must complete */
+	for (int p = 0; p < 3; p++) { char bn[64]; snprintf(bn, sizeof bn, "chain-at-the-store-limit-%s", PNAME[p]); if (!vh_block_begin(bn)) continue;
+		for (int m = 0; m < 2; m++) for (int d = 2; d <= 3; d++) for (int tot = 2036; tot <= 2048; tot++) { cfg_t cf = { p, m, d, { { 24 }, 1, 64 }, { { 24 }, 1, 64 }, 1, 0, 0, 0, 0, tot }; if (!vh_next()) continue; if (!vh_thorough && m && (tot & 1)) continue; ENVX = 0; run_exec(&cf, NULL, 0); NEXEC++; char nm[48]; snprintf(nm, sizeof nm, "chain-of-%d-octets", tot); judge(&cf, NULL, 0, nm); vh_sample("{\"block\":\"chain-at-the-store-limit\",\"proto\":\"%s\",\"mutual\":%d,\"chain_depth\":%d,\"chain_octets\":%d}", PNAME[p], m, d, tot); } }
 	/* F: trust lists with more than one CA certificate (the genuine root in front, in the middle, at the end): both verifiers must find it, and what the server
 	   tells the client about its acceptable authorities must be something the client can read */
 	for (int p = 0; p < 3; p++) { char bn[64]; snprintf(bn, sizeof bn, "trust-lists-%s", PNAME[p]); if (!vh_block_begin(bn)) continue;
